@@ -153,6 +153,10 @@ func (fr *Frame) resolveLocal(name string, st *State) (Val, bool) {
 	if fr.nameFrame != nil && fr.nameFrame != fr {
 		return fr.nameFrame.resolveLocal(name, st)
 	}
+	// an inlined closure may mention variables of the function it is written in
+	if fr.parent != nil && fr.fn.Parent() != nil {
+		return fr.parent.resolveLocal(name, st)
+	}
 	return Val{}, false
 }
 
